@@ -91,7 +91,13 @@ def install(E, probes=ASCII_PROBES):
         if codec is not None:
             c = z3.simplify(codec.z)
             if not (z3.is_string_value(c) and c.as_string().lower().replace("_", "-") in ("utf-8", "utf8")):
-                raise Unsupported("encode with a codec other than utf-8")
+                # another codec (idna, ascii, latin-1, a name only known at run time, ...): the result is some byte string, or the
+                # call raises UnicodeError (UnicodeEncodeError and the plain UnicodeError of 'idna' included) or LookupError
+                k = ctx.choose(3, "encode(other codec): bytes/UnicodeError/LookupError")
+                E.use_assumption("E6: str.encode with a codec other than utf-8 returns arbitrary bytes or raises UnicodeError / LookupError")
+                if k == 0:
+                    return VBytes(ctx.fresh_str("encoded_other_codec"))
+                raise PyRaise(VExc("UnicodeError" if k == 1 else "LookupError", VStr(ctx.fresh_str("codec_err")), origin="str.encode"))
         sur = []
         out = enc_term(ctx, s.z, sur)
         cond = z3.simplify(z3.Or(*sur)) if sur else z3.BoolVal(False)
